@@ -46,17 +46,17 @@ CFGA = ["A-hash", "A-clone", "A-std", "A-yaml", "A-all"]
 FSA = ["A-walkdir", "A-str", "A-adapters"]
 ACTORS = ["A-hash", "A-clone", "A-std", "A-chan", "A-proc", "A-bridge", "R1", "R16"]
 PROPS = {
-    "C01": {"units": ["ACT", "RELAY", "CFG"], "level": "proof", "assume": ACTORS},
+    "C01": {"units": ["ACT", "RELAY", "CFG", "BLD"], "level": "proof", "assume": ACTORS},
     "C04": {"units": ["ACT", "RELAY", "CLN"], "level": "proof", "assume": ACTORS + ["A-exec"],
             "not_covered": ["not covered: liveness itself (executor fairness, that scripts terminate, any time bound) - only the safety skeleton of termination is proved"]},
-    "C02": {"units": ["INC", "UTIL", "FS"], "level": "proof", "assume": INCA + FSA,
+    "C02": {"units": ["INC", "UTIL", "FS", "CFG"], "level": "proof", "assume": INCA + FSA,
             "not_covered": ["not covered: hash collisions (the record holds a hash of the content), the directory walk itself (A-fs), timestamp granularity"]},
-    "C03": {"units": ["INC", "UTIL", "FS"], "level": "proof", "assume": INCA + FSA,
+    "C03": {"units": ["INC", "UTIL", "FS", "CFG"], "level": "proof", "assume": INCA + FSA,
             "not_covered": ["not covered: 're-running executes no script' across two processes is the conjunction of C03.record at the end of run 1 and C03.reflexive at the start of run 2 under A-codec, not a two-process experiment; a read error on the state file forces a rebuild"]},
     "C05": {"units": ["INC", "BLD", "ACT"], "level": "proof", "assume": INCA + ["A-chan", "A-proc", "R16"]},
     "C06": {"units": ["ACT", "RELAY", "INC", "WCH", "CLN"], "level": "proof", "assume": ACTORS + ["A-notify", "A-fs", "A-codec"],
             "not_covered": ["not covered: convergence as a liveness statement; notify's delivery guarantees"]},
-    "C07": {"units": ["BLD", "ACT", "RELAY", "CLN"], "level": "proof", "assume": ACTORS,
+    "C07": {"units": ["BLD", "ACT", "RELAY", "CLN", "CFG"], "level": "proof", "assume": ACTORS,
             "not_covered": ["not covered: the text of the error message"]},
     "C08": {"units": ["ACT", "BLD", "RELAY", "CLN", "CFG"], "level": "proof", "assume": ACTORS,
             "not_covered": ["not covered: 'at least once' is C04's liveness"]},
